@@ -33,6 +33,7 @@ type Profile struct {
 	Foreign     int // per-mille probability that a history starts from a foreign (Lean-encoded) image
 	BadMagic    int // per-mille probability, among foreign images, of a non-canonical magic/version
 	TornHeader  bool // histories include "reopened after an add that was interrupted before its header write"
+	Faults      bool // histories include operations during which the backing store fails a call, the handle being used on afterwards
 	Truncs      bool // histories include "the file is cut short inside an object, then opened again"
 }
 
